@@ -15,6 +15,8 @@ inductive Item where
   | msg (epoch : Nat)          -- a MSG chunk secured with the keys of token `epoch`
   | renewReq                   -- OPN Renew request (asymmetric security, independent of the symmetric keys)
   | renewResp (epoch : Nat)    -- OPN response announcing token `epoch`
+  | renewReqSame               -- OPN Renew request that reuses the client nonce of the previous Issue/Renew
+  | fault                      -- ServiceFault answer to an OPN request (BadNonceInvalid)
 deriving Repr, DecidableEq
 
 structure St where
@@ -24,17 +26,19 @@ structure St where
   c2s : List Item              -- client → server link, head = oldest
   s2c : List Item              -- server → client link
   pend : Option Nat            -- OPN response received by the client transport, not yet applied
+  pendFault : Bool             -- a ServiceFault answer to the Renew was received, not yet handed to the session task
   outstanding : Bool           -- client has a renew in progress (holds `issue_channel_lock`)
   sSeenNew : Bool              -- server has received a message under its newest token
   cSeenNew : Bool              -- client has received a message under its newest token
 deriving Repr, DecidableEq
 
 def init (secured : Bool) : St :=
-  { secured, cKey := 0, sKey := 0, c2s := [], s2c := [], pend := none, outstanding := false,
+  { secured, cKey := 0, sKey := 0, c2s := [], s2c := [], pend := none, pendFault := false, outstanding := false,
     sSeenNew := true, cSeenNew := true }
 
 inductive Op where
   | cSend | cRenew | sStep | sSend | cStep | cApply
+  | cRenewSame                 -- client sends a Renew that reuses its previous nonce (a buggy or malicious client)
   | cForge (epoch : Nat)       -- a third party injects a MSG under keys nobody issued, towards the server
   | sForge (epoch : Nat)       -- same towards the client
 deriving Repr, DecidableEq
@@ -46,6 +50,9 @@ inductive Out where
   | rejected (epoch : Nat)     -- a MSG was delivered and failed verification
   | renewed (epoch : Nat)      -- server processed Renew → new token / client applied it
   | gotResp (epoch : Nat)      -- client transport received the OPN response
+  | faulted                    -- server answered the Renew with a ServiceFault (nonce reused); keys unchanged
+  | gotFault                   -- client transport received that fault
+  | renewFailed                -- the session task saw the fault: the renewal is over, keys unchanged
 deriving Repr, DecidableEq
 
 /-- what the implementation does: one key slot, exact match -/
@@ -56,6 +63,9 @@ def step (s : St) : Op → St × Out
   | .cRenew =>
     if s.outstanding then (s, .idle)
     else ({ s with c2s := s.c2s ++ [.renewReq], outstanding := true }, .queued)
+  | .cRenewSame =>
+    if s.outstanding then (s, .idle)
+    else ({ s with c2s := s.c2s ++ [.renewReqSame], outstanding := true }, .queued)
   | .sSend => ({ s with s2c := s.s2c ++ [.msg s.sKey] }, .queued)
   | .cForge e => ({ s with c2s := s.c2s ++ [.msg e] }, .queued)
   | .sForge e => ({ s with s2c := s.s2c ++ [.msg e] }, .queued)
@@ -69,7 +79,14 @@ def step (s : St) : Op → St × Out
     | .renewReq :: rest =>
       ({ s with c2s := rest, sKey := s.sKey + 1, s2c := s.s2c ++ [.renewResp (s.sKey + 1)],
                 sSeenNew := false }, .renewed (s.sKey + 1))
+    | .renewReqSame :: rest =>
+      -- `open_secure_channel`: a Renew whose nonce equals the stored remote nonce is refused on a
+      -- secured channel (ServiceFault BadNonceInvalid, nothing changes); policy None does not look
+      if s.secured then ({ s with c2s := rest, s2c := s.s2c ++ [.fault] }, .faulted)
+      else ({ s with c2s := rest, sKey := s.sKey + 1, s2c := s.s2c ++ [.renewResp (s.sKey + 1)],
+                     sSeenNew := false }, .renewed (s.sKey + 1))
     | .renewResp _ :: rest => ({ s with c2s := rest }, .idle)
+    | .fault :: rest => ({ s with c2s := rest }, .idle)
   | .cStep =>
     match s.s2c with
     | [] => (s, .idle)
@@ -79,9 +96,12 @@ def step (s : St) : Op → St × Out
       else ({ s with s2c := rest }, .rejected e)
     | .renewResp e :: rest => ({ s with s2c := rest, pend := some e }, .gotResp e)
     | .renewReq :: rest => ({ s with s2c := rest }, .idle)
+    | .renewReqSame :: rest => ({ s with s2c := rest }, .idle)
+    | .fault :: rest => ({ s with s2c := rest, pendFault := true }, .gotFault)
   | .cApply =>
     match s.pend with
-    | none => (s, .idle)
+    | none =>
+      if s.pendFault then ({ s with pendFault := false, outstanding := false }, .renewFailed) else (s, .idle)
     | some e => ({ s with cKey := e, pend := none, outstanding := false, cSeenNew := false }, .renewed e)
 
 def run : St → List Op → St × List Out
